@@ -127,6 +127,53 @@ static void run_links_case(int alg, int in_alg, const rlink *links, size_t n, co
 			if (r2 != KSI_OK && out != NULL) vf_fail("refused-with-root", "KSI_HashChain_aggregate start=%d returned 0x%x and still handed out a root", starts[0], r2);
 			KSI_DataHash_free(out);
 		}
+		/* a metadata sibling changed in place (its client id given another first letter through the setter): the link list aggregates to
+		 * the root of the record as it is NOW - what was parsed, hashed before or kept in a raw form must not show */
+		{
+			size_t mi;
+			for (mi = 0; mi < n; mi++) if (links[mi].kind == RL_META) break;
+			if (mi < n && backend_supports(alg)) {
+				rlink mod[64];
+				rtlv e;
+				size_t off = 0, j;
+				int found = 0;
+				if (n > 64) vf_harness_error("chain too long");
+				for (j = 0; j < n; j++) mod[j] = links[j];
+				while (off < mod[mi].sib_len && rtlv_read(mod[mi].sib + off, mod[mi].sib_len - off, &e) == 0) {
+					if (e.tag == 0x01 && e.len >= 2) { found = 1; break; }
+					off += e.hdr + e.len;
+				}
+				if (found) {
+					KSI_LIST(KSI_HashChainLink) *ll = NULL;
+					KSI_HashChainLink *lk = NULL;
+					KSI_MetaDataElement *mde = NULL;
+					KSI_Utf8String *nu = NULL;
+					KSI_DataHash *ih = NULL, *out = NULL;
+					unsigned char exp[RH_MAX_IMPRINT];
+					char nv[300];
+					size_t el = 0, cl = e.len < sizeof nv ? e.len : sizeof nv - 1;
+					int elv = -1, lv = -999, rr, r2;
+					memcpy(nv, e.val, cl); nv[cl - 1] = 0;
+					nv[0] = (char)(nv[0] == 'q' ? 'r' : 'q');
+					mod[mi].sib[off + e.hdr] = (unsigned char)nv[0];
+					KSI_AggregationHashChain_getChain(c, &ll);
+					KSI_AggregationHashChain_getInputHash(c, &ih);
+					KSI_HashChainLinkList_elementAt(ll, mi, &lk);
+					if (lk != NULL) KSI_HashChainLink_getMetaData(lk, &mde);
+					if (mde != NULL && KSI_Utf8String_new(ctx, nv, cl, &nu) == KSI_OK && KSI_MetaDataElement_setClientId(mde, nu) == KSI_OK) {
+						nu = NULL;   /* the element has taken the string over */
+						rr = ref_chain_aggregate(alg, in, in_len, starts[0], mod, n, exp, &el, &elv);
+						r2 = KSI_HashChain_aggregate(ctx, ll, ih, starts[0], alg, &lv, &out);
+						vf_count("impl_calls", 2);
+						if (rr == 0 && (r2 != KSI_OK || lv != elv || !ku_hash_eq(out, exp, el)))
+							vf_fail("aggr-after-metadata-edit", "start=%d: after the client id of the metadata sibling (link %zu) was set to '%s' the chain aggregates to res 0x%x level %d root %s, expected level %d root %s", starts[0], mi, nv, r2, lv, ku_hash_hex(out), elv, vf_hex(exp, el));
+						else vf_outcome("aggr:metadata-edited-in-place:%s", rr == 0 ? "ok" : "reject-expected");
+						KSI_DataHash_free(out);
+					} else vf_outcome("aggr:metadata-edit-not-applicable");
+					KSI_Utf8String_free(nu);
+				}
+			}
+		}
 	}
 	KSI_AggregationHashChain_free(c);
 	free(ex);
